@@ -573,6 +573,11 @@ impl<T: Clone + Eq + Debug + Default> WrappedBlock<T> {
 
     fn flush(&mut self) -> Result<()> {
         self.flush_word(WhiteSpace::Normal)?;
+        // White space still pending at the end of the block is discarded,
+        // and its tag with it: the padding of the last line is not part of
+        // the inline element the space was in.
+        self.spacetag = None;
+        self.wslen = 0;
         self.flush_line();
         Ok(())
     }
